@@ -49,6 +49,7 @@ func C07(ctx *core.Ctx) {
 	ctx.Rule("C07.R4", "ack discipline: a message is acknowledged only on the nil-error edge of the callback", 1)
 	ctx.Rule("C07.R6", "fresh channels per subscriber transport instance", 4)
 	ctx.Rule("C07.R7", "no drop between broker and workers: the subscription handler hands each message to the work queue with a plain (back-pressure) send", 1)
+	c07PerMessage(ctx, r)
 	ctx.Rule("C07.R8", "publish side: every published message is encoded into a buffer of its own and exactly those bytes go to the publisher transport under the caller's topic", 2)
 	if pm, pub := r.Fn("C07.R8", "(FStandardClient).prepareMessage"), r.Fn("C07.R8", "(*FStandardClient).Publish"); pm != nil && pub != nil {
 		var buffer ssa.Value
